@@ -185,7 +185,7 @@ class Fn:
             if l == local and not pj:
                 nm = re.sub(r"__\d+$", "", n_)
         ds0 = self.defs(local)
-        if nm is not None and local > self.arg_count and len(ds0) == 1 and ds0[0][0] == "assign" and self.blocks[ds0[0][1]]["stmts"][ds0[0][2]].get("inlined_arg") and not self.locals[local]["ty"].startswith("&"):
+        if nm is not None and local > self.arg_count and len(ds0) == 1 and ds0[0][0] == "assign" and self.blocks[ds0[0][1]]["stmts"][ds0[0][2]].get("inlined_arg") and not self.locals[local]["ty"].startswith("&") and not self.locals[local]["mut"]:
             # the by-value parameter of a spliced helper: a name for the argument expression
             self._new_let[local] = True
             return True
